@@ -1,7 +1,7 @@
 (* C02 -- Everything a session uploads is self-consistent and server-verifiable.  Statements only. *)
 From Coq Require Import NArith Bool List.
 Import ListNotations.
-From XetModel Require Import Base.Codec Gen.ShardLayout Gen.DedupFacts Model.Merkle Model.Shard Model.Dedup Proofs.PipelineProofs Proofs.ResolveProofs.
+From XetModel Require Import Base.Codec Gen.ShardLayout Gen.DedupFacts Model.Merkle Model.Shard Model.Dedup Proofs.PipelineProofs Proofs.ResolveProofs Proofs.BytesProofs Proofs.SegBytesProofs.
 Open Scope N_scope.
 
 (* the record finalize emits: hash = file hash, one verification entry per segment, entry i = range hash of the fed chunk
@@ -35,9 +35,20 @@ Theorem C02_session_records_resolve : forall F U, StoreOk F U -> forall rc cf op
   (forall x, In x (s_uploaded (srun rc cf ops)) -> In x F) ->
   DoneAll F (s_shard_files (srun rc cf ops)) (ghosts ops).
 Proof. intros F U H rc cf ops Hok Hup. exact (proj1 (proj2 (session_resolves F U H rc cf ops Hok Hup))). Qed.
-(* not proved: that the recorded segment byte counts equal the summed chunk lengths (checked by the independent validator of
-   stream sess on every generated session and by stream dd on every scripted file) *)
+(* the byte count recorded in every segment is, modulo 2^32 (the field is a u32), the summed length of the chunks the
+   segment resolves to: for a whole file fed in any number of blocks, under StoreOk, truthful tables and xorbs below 4 GiB;
+   merge_in and the aggregator's finalize never touch a byte count *)
+Theorem C02_segment_bytes : forall F U, StoreOk F U -> forall cf ext R blocks,
+  TableOk F ext -> TableSmall ext -> (forall x, In x F -> sum_lens (chunks_of x) < 4294967296) ->
+  (forall b c, In b blocks -> In c b -> In c U) ->
+  (forall x, In x (f_registered (feed_blocks dedup_booked_before_decision cf ext (fd_with_registered R) blocks)) -> In x F) ->
+  BInv F (feed_blocks dedup_booked_before_decision cf ext (fd_with_registered R) blocks).
+Proof. exact file_segment_bytes. Qed.
+Theorem C02_later_stages_keep_byte_counts : forall l k idx iref h,
+  map sg_bytes (shift_segs l k) = map sg_bytes l /\ map sg_bytes (patch_segs l idx iref h) = map sg_bytes l.
+Proof. intros. split; [apply shift_segs_bytes | apply patch_segs_bytes]. Qed.
 
 Print Assumptions C02_record_shape.
 Print Assumptions C02_records_reference_existing_ranges.
 Print Assumptions C02_session_records_resolve.
+Print Assumptions C02_segment_bytes.
